@@ -226,11 +226,11 @@ def run():
     print(f"[*] Checking for TLS traffic on these ports: {server_ports}")
 
     for ts, buf in pcap_reader:
-        packet = Packet(buf, ts)
-
         if ts == -1:
             keylog.extend(keylog_reader.get_keys_from_string(buf.decode('ascii')))  # adds secrets from decryption secret block to keylog
             continue
+
+        packet = Packet(buf, ts)
 
         if packet.tcp_packet:
             if len(packet.tls_data) == 0:
